@@ -187,6 +187,7 @@ pub fn eval_case(arch: &str, r_type: u32, info: RelocationKindInfo, spec: Option
             };
             if let Some(s) = spec {
                 if !in_may {
+                    // Same class names as the end-to-end part of checks/c12.py.
                     let zone = if x >= s.may.1 { "above-range-accepted" } else { "below-range-accepted" };
                     violations.push((
                         key(zone),
